@@ -239,6 +239,25 @@ def run(ctx):
 
     # ---- D5 save path and inherited Waterfalls
     ctx.clause = 'D5'
+    editors = {}
+    for f2 in ctx.prog.functions.values():
+        if isinstance(f2.node, ast.Lambda):
+            continue
+        for n in ast.walk(f2.node):
+            tgt = None
+            if isinstance(n, ast.Subscript) and isinstance(n.ctx, (ast.Store, ast.Del)):
+                tgt = n.value
+            elif isinstance(n, ast.Call) and isinstance(n.func, ast.Attribute) and n.func.attr in ('update', 'pop', 'setdefault', 'clear'):
+                tgt = n.func.value
+            if tgt is not None and isinstance(tgt, ast.Attribute) and tgt.attr in ('header', 'file_header') and \
+                    'waterfall' in ast.unparse(tgt.value):
+                owner = ctx.prog.enclosing_function(f2.module, n) or f2
+                editors.setdefault(owner.short, n)
+    ok_ed = {FR + '_update_waterfall', FR + '_encode_bytestrings', FR + '_decode_bytestrings'}
+    extra = sorted(set(editors) - ok_ed)
+    ctx.ob('WHOWRITES', 'only the frame\'s own save path edits a Waterfall header (an inherited Waterfall is shared state: what is saved '
+           'must describe the frame being saved)', 'setigen/**', not extra, {'editors': sorted(editors), 'unexpected': extra},
+           node=(editors[extra[0]] if extra else None), construct='waterfall.header writers')
     NI = (FR + '_update_waterfall', FR + '_encode_bytestrings', FR + '_decode_bytestrings', FR + 'get_waterfall')
     for name, writer in (('save_fil', 'write_to_fil'), ('save_hdf5', 'write_to_hdf5')):
         agree_ref(ctx, ctx.func(FR + name), REF_SAVE.format(name=name, writer=writer), f'{name}: refresh, encode strings, write, decode',
